@@ -20,6 +20,7 @@ class Image:
     def __init__(self, img):
         self.b = img
         self.problems = []
+        self.sym_checks = []
 
     def bad(self, msg):
         self.problems.append(msg)
@@ -44,6 +45,13 @@ class Image:
         return int.from_bytes(self.cbytes(off, n), 'big')
 
     def both(self, off, n, what):
+        lo, hi = self.raw(off, n), self.raw(off + n, n)
+        if not all(isinstance(x, int) for x in list(lo) + list(hi)):
+            # symbolic field (used by function-level contracts): value as a term, agreement of the copies as a side condition
+            a = sum(x * 256 ** i for i, x in enumerate(lo))
+            b = sum(x * 256 ** (n - 1 - i) for i, x in enumerate(hi))
+            self.sym_checks.append(a == b)
+            return a
         a, b = self.le(off, n), self.be(off + n, n)
         if a != b:
             self.bad('%s: little-endian %d and big-endian %d copies disagree' % (what, a, b))
@@ -279,7 +287,7 @@ def check_path_tables(im, info, root):
 # ------------------------------------------------------------------------------------------------------------------
 class RR:
     def __init__(self):
-        self.name = b''
+        self.name_items = []      # the NM name, possibly symbolic byte values
         self.mode = None
         self.nlink = None
         self.symlink = None
@@ -289,12 +297,17 @@ class RR:
         self.entries = []
         self.ce_areas = []
 
+    @property
+    def name(self):
+        return bytes(_concrete(x, 'NM name byte') for x in self.name_items)
+
 
 def susp_entries(im, off, n, skip, rr, depth=0):
     """walk one system use area (record tail or continuation area)"""
     pos = off + skip
     end = off + n
     ce = None
+    stopped = False
     while pos + 4 <= end:
         sig = im.cbytes(pos, 2)
         ln = im.byte(pos + 2)
@@ -312,8 +325,11 @@ def susp_entries(im, off, n, skip, rr, depth=0):
             ce = (im.both(body, 4, 'CE block'), im.both(body + 8, 4, 'CE offset'), im.both(body + 16, 4, 'CE length'))
         elif sig == b'NM':
             flags = im.byte(body)
-            rr.name += im.cbytes(body + 1, ln - 5)
-            rr.nm_continue = bool(flags & 1)
+            if rr.__dict__.get('nm_done'):
+                im.bad('NM entry after the final NM entry (CONTINUE flag was clear): a reader stops at the first complete name')
+            else:
+                rr.name_items += im.raw(body + 1, ln - 5)
+                rr.nm_done = not (flags & 1)
         elif sig == b'PX':
             rr.mode = im.both(body, 4, 'PX mode')
             rr.nlink = im.both(body + 8, 4, 'PX links')
@@ -321,12 +337,16 @@ def susp_entries(im, off, n, skip, rr, depth=0):
             flags = im.byte(body)
             p = body + 1
             comps = rr.__dict__.setdefault('sl_comps', [])
-            while p < pos + ln:
-                cf = im.byte(p)
-                cl = im.byte(p + 1)
-                comps.append((cf, im.cbytes(p + 2, cl)))
-                p += 2 + cl
-            rr.sl_continue = bool(flags & 1)
+            if rr.__dict__.get('sl_done'):
+                # RRIP 4.1.3: the link continues in the next SL entry only if this entry's CONTINUE flag is set
+                im.bad('SL entry after the final SL entry (CONTINUE flag was clear): the target ends there for a reader')
+            else:
+                while p < pos + ln:
+                    cf = im.byte(p)
+                    cl = im.byte(p + 1)
+                    comps.append((cf, im.cbytes(p + 2, cl)))
+                    p += 2 + cl
+                rr.sl_done = not (flags & 1)
         elif sig == b'CL':
             rr.cl = im.both(body, 4, 'CL')
         elif sig == b'PL':
@@ -334,8 +354,13 @@ def susp_entries(im, off, n, skip, rr, depth=0):
         elif sig == b'RE':
             rr.re = True
         elif sig == b'ST':
+            stopped = True
             break
         pos += ln
+    # the entries fill the area; a directory record may carry one pad byte to make its length even
+    if not stopped:
+        if end - pos > (1 if depth == 0 else 0):
+            im.bad('system use entries do not add up to the length of their area (%d bytes left over, %s)' % (end - pos, 'record' if depth == 0 else 'continuation area'))
     if ce is not None:
         blk, o, l = ce
         if o + l > 2048:
@@ -345,8 +370,27 @@ def susp_entries(im, off, n, skip, rr, depth=0):
             susp_entries(im, blk * 2048 + o, l, 0, rr, depth + 1)
 
 
+def susp_skip(im, root):
+    """SUSP 5.3: the SP entry of the first record of the root directory says how many bytes to skip in every system use area
+    (CD-ROM XA puts 14 bytes of its own first, so SP is then looked for behind them, as readers do)"""
+    recs = read_directory(im, root.extent, root.length, 'root')
+    dot = recs[0] if recs else None
+    if dot is None:
+        return 0
+    for at in (0, 14):
+        if dot.su_len >= at + 7 and im.cbytes(dot.su_off + at, 2) == b'SP':
+            if im.cbytes(dot.su_off + at + 2, 4) != b'\x07\x01\xbe\xef':
+                im.bad('SP entry is not 07 01 BE EF')
+            skip = im.byte(dot.su_off + at + 6)
+            if skip != at:
+                im.bad('SP entry found %d bytes into the system use area but tells readers to skip %d' % (at, skip))
+            return skip
+    return 0
+
+
 def rock_ridge(im, e, skip):
     rr = RR()
+    skip = skip or getattr(im, 'susp_skip', 0)
     susp_entries(im, e.su_off, e.su_len, skip, rr)
     comps = rr.__dict__.get('sl_comps')
     if comps is not None:
@@ -406,6 +450,7 @@ def read_iso(img):
             res['svds'].append(vd_info(im, sec))
     if 'pvd' in res:
         res['root'] = read_tree(im, res['pvd'])
+        im.susp_skip = susp_skip(im, res['root'])
     return im, res
 
 
